@@ -133,6 +133,11 @@ func reachableUnderBlocked(fn *ssa.Function, assign map[ssa.Value]bool, blocked 
 
 func c18(c *Ctx) {
 	p, r := c.K1(), c.R
+	// R6: Equals(nil) / In(nil, …) is well defined for every nilable kind: the converter turns the untyped nil into the
+	// typed zero value of each of them (C09.R1)
+	if !c.importing {
+		importSibling(c, "C09", "C18.R6", func(rule string) bool { return rule == "C09.R1" })
+	}
 	r.Expl = "Structural clauses behind 'argument expressions form a consistent predicate algebra': evaluating any Expr (and everything it statically calls in package arg) writes no non-local memory, so an evaluation cannot change a later answer; Any's Eval returns (true,nil) on every path; In resolves its rows through the same constructor that wraps plain values in Equals and its evaluation is a disjunction over rows of a conjunction over positions (false only after all rows were tried); in the equality cascade every Value.Elem() is guarded by a Ptr/Interface kind test and is unreachable when the nil test of that operand is true. Equality semantics over all values is not decided."
 	r.RuleText = "one obligation per (rule, Expr implementation / function / call site)"
 	r.Floor("C18.R1", 3)
@@ -694,6 +699,76 @@ func c18(c *Ctx) {
 		}
 	}
 	r.Stat("elem_call_sites", nElem)
+	// (d) funcs are compared by identity: reflect.DeepEqual (false for any two non-nil funcs) is reached only after a func
+	// test of the very values that are handed to it
+	for _, f := range p.FuncsIn("arg") {
+		for _, cs := range callsTo(f, "reflect.DeepEqual") {
+			cl := cs.(*ssa.Call)
+			var ops []ssa.Value
+			for _, a := range cl.Call.Args {
+				for _, at := range origins(a) {
+					if ic, ok := at.V.(*ssa.Call); ok && calleeName(ic.Common()) == "(reflect.Value).Interface" {
+						ops = append(ops, resolveLocal(ic.Call.Args[0]))
+					}
+				}
+			}
+			if len(ops) != 2 {
+				continue
+			}
+			tested := map[ssa.Value]bool{}
+			hasFuncTest := false
+			eachInstr(f, func(i ssa.Instruction) {
+				if c2, ok := i.(*ssa.Call); ok {
+					if cal := staticCallee(c2.Common()); cal != nil && relPkg(cal) == "arg" && len(c2.Call.Args) == 1 && isKindPredicateFn(cal, 19) {
+						hasFuncTest = true
+					}
+				}
+			})
+			if !hasFuncTest {
+				continue // a helper for other kinds (numbers/strings): funcs cannot reach it
+			}
+			eachInstr(f, func(i ssa.Instruction) {
+				c2, ok := i.(*ssa.Call)
+				if !ok || !domInstr(c2, cl) {
+					return
+				}
+				if cal := staticCallee(c2.Common()); cal != nil && relPkg(cal) == "arg" && len(c2.Call.Args) == 1 && isKindPredicateFn(cal, 19) {
+					tested[resolveLocal(c2.Call.Args[0])] = true
+				}
+			})
+			// the first operand's test dominates; the second sits behind `&&` and need not dominate — accept either operand
+			okF := tested[ops[0]] || tested[ops[1]]
+			r.Check(okF, "C18.R4", "deep comparison in "+shortName(f)+" comes after the func test of its operands", p.Pos(posOf(cl)), "isFunc(x) on the value handed to DeepEqual",
+				"the func-identity test is made on other values than the ones finally compared (e.g. before pointers/interfaces were unwrapped): a func passed through an interface-typed parameter reaches DeepEqual, which is false for any two non-nil funcs, so Equals(f) rejects f")
+		}
+	}
+	// (c) in a two-operand comparison each operand has its own nil test: the nil predicate is applied to (something derived
+	// from) each of the two reflect.Value parameters
+	for _, f := range p.FuncsIn("arg") {
+		if f.Blocks == nil || len(f.Params) != 2 {
+			continue
+		}
+		if !strings.HasSuffix(f.Params[0].Type().String(), "reflect.Value") || !strings.HasSuffix(f.Params[1].Type().String(), "reflect.Value") {
+			continue
+		}
+		tested := map[*ssa.Parameter]int{}
+		nCalls := 0
+		eachInstr(f, func(i ssa.Instruction) {
+			if c2, ok := i.(*ssa.Call); ok {
+				if cal := staticCallee(c2.Common()); cal != nil && relPkg(cal) == "arg" && isNilPredicate(cal) && len(c2.Call.Args) == 1 {
+					nCalls++
+					if root := elemRoot(c2.Call.Args[0]); root != nil {
+						tested[root]++
+					}
+				}
+			}
+		})
+		if nCalls < 2 {
+			continue
+		}
+		r.Check(tested[f.Params[0]] > 0 && tested[f.Params[1]] > 0, "C18.R4", "each operand of "+shortName(f)+" has its own nil test", p.Pos(f.Pos()), "the nil predicate is applied to both operands",
+			"both nil tests of the comparison look at the same operand: whether the other one is nil is never asked, so Equals(nil) accepts every value (and a non-nil expectation compared with a nil argument is dereferenced and panics)")
+	}
 }
 
 func blockOrdinal(i ssa.Instruction) string {
@@ -741,4 +816,35 @@ func elemRoot(v ssa.Value) *ssa.Parameter {
 		}
 	}
 	return nil
+}
+
+// isKindPredicateFn: a module function of one reflect.Value parameter returning bool whose every `return true` is under
+// a test Kind() == k of its parameter.
+func isKindPredicateFn(cal *ssa.Function, k int64) bool {
+	if cal == nil || cal.Blocks == nil || len(cal.Params) != 1 || cal.Signature.Results().Len() != 1 || !isBool(cal.Signature.Results().At(0).Type()) {
+		return false
+	}
+	if !strings.HasSuffix(cal.Params[0].Type().String(), "reflect.Value") {
+		return false
+	}
+	found := false
+	for _, ret := range returnsOf(cal) {
+		rv := retResult(ret, 0)
+		if c, ok := rv.(*ssa.Const); ok {
+			if c.Value != nil && c.Value.String() == "true" {
+				ks := kindsInto(ret.Block())
+				if len(ks) != 1 || !ks[k] {
+					return false
+				}
+				found = true
+			}
+			continue
+		}
+		if kk, _, ok := kindTest(rv); ok && kk == k {
+			found = true
+			continue
+		}
+		return false
+	}
+	return found
 }
